@@ -7,7 +7,7 @@ from .stmt import (
     RangeCaseClause, CompareCaseClause, CaseElseStmt, SelectBlock,
 )
 from .expr import Type, Expr, Lvalue, NumericLiteral, FuncCall
-from .program import Label, LineNo
+from .program import Label, LineNo, Program
 from .codegen import CodeGen
 from .exceptions import ErrorCode as EC, InternalError, CompileError
 from .parser import parse_string
@@ -255,7 +255,9 @@ class Pass1(CompilePass):
             self.compilation.def_letter_types[letter] = node.type
 
     def process_sub_block_pre(self, node):
-        if node.parent_routine.name != '_main':
+        if node.parent_routine.name != '_main' or \
+           not isinstance(node.parent, Program):
+            # neither inside another routine nor inside a block
             raise CompileError(
                 EC.ILLEGAL_IN_SUB,
                 'Sub-routine only allowed in the top-level',
@@ -291,7 +293,9 @@ class Pass1(CompilePass):
         self.compilation.routines[node.name] = routine
 
     def process_function_block_pre(self, node):
-        if node.parent_routine.name != '_main':
+        if node.parent_routine.name != '_main' or \
+           not isinstance(node.parent, Program):
+            # neither inside another routine nor inside a block
             raise CompileError(
                 EC.ILLEGAL_IN_SUB,
                 'Function only allowed in the top-level',
